@@ -47,6 +47,7 @@ func cmdVerify(args []string) {
 	verbose := fs.Bool("v", false, "list every obligation")
 	dump := fs.String("dump", "", "write failing SMT files here")
 	full := fs.Int("t", 10, "solver timeout seconds")
+	probe := fs.Bool("probe", false, "split failing goals into conjuncts and report which fail")
 	repo := fs.String("repo", envOr("VERIF_REPO", "/repo"), "repository")
 	verif := fs.String("verif", envOr("VERIF_DIR", "/verif"), "verif dir")
 	fs.Parse(args)
@@ -151,6 +152,16 @@ func cmdVerify(args []string) {
 								fnm := fmt.Sprintf("%s/%s_%d.smt2", *dump, strings.NewReplacer("/", "_", ":", "_", "(", "", ")", "", "*", "p", "#", "_").Replace(n), i)
 								os.WriteFile(fnm, []byte(ob.SMT(true)), 0o644)
 								fmt.Println("        dumped", fnm)
+							}
+							if *probe {
+								bad := eng.Probe(ob, eng.SolverCfg{Dir: tmp, Quick: 3 * time.Second, Full: time.Duration(*full) * time.Second})
+								for _, b := range bad {
+									g := b.Goal.String()
+									if len(g) > 600 {
+										g = g[:600] + "..."
+									}
+									fmt.Printf("          conjunct %s: %s\n            %s\n", b.Name[strings.LastIndex(b.Name, "~"):], b.Status, g)
+								}
 							}
 							if ob.Model != "" && *verbose {
 								fmt.Println(indent(firstLines(ob.Model, 40), "          "))
